@@ -94,6 +94,14 @@ func runShutChild(cfg runCfg, emit func(Case)) error {
 		say("NOTE bystander feed did not receive its first event")
 	}
 	var manualTimer int32
+	if in.Racer == "timer2" {
+		// the sweep will have another collection to go to after the one it is held in
+		if d := h0.DefaultDataStore(); d != nil {
+			_ = d.SetRaw("old0", 1000000000, nil, []byte("x"))
+		}
+		in.Racer = "timer"
+		defer func() { in.Racer = "timer2" }()
+	}
 	if in.Racer == "timer" {
 		// something to expire: an expiry in the past.  Firings of the real timer are parked for good; the
 		// racer is the timer's callback run by hand (VerifRunExpiry), recognised by the flag below
@@ -347,7 +355,7 @@ func execShut(in shutInput, scratch string) (Case, error) {
 		}
 		c.Notes = append(c.Notes, keep)
 	}
-	racers := map[string]string{"write": "RWrite", "subdoc": "RSubdoc", "feedstart": "RFeedStart", "view": "RView", "timer": "RTimer", "close": "RClose", "rearm": "RRearm"}
+	racers := map[string]string{"write": "RWrite", "subdoc": "RSubdoc", "feedstart": "RFeedStart", "view": "RView", "timer": "RTimer", "timer2": "RTimer", "close": "RClose", "rearm": "RRearm"}
 	shuts := map[string]string{"cad": "SCad", "close_last": "SCloseLast", "close_one": "SCloseOne", "drop": "SDrop"}
 	c.CoqInput = C("mkShutCase", B(in.InMem), C(racers[in.Racer]), S(in.Point), C(shuts[in.Shutdown]))
 	c.CoqObs = C(outcome)
@@ -361,6 +369,7 @@ var shutPoints = map[string][]string{
 	"feedstart": {"feed.preregister"},
 	"view":      {"txn.begin", "txn.precommit"},
 	"timer":     {"expiry.fire", "expiry.window", "txn.begin", "cas.beforePost"},
+	"timer2":    {"expiry.window", "txn.begin", "cas.beforePost"}, // as timer, with something to expire in two collections: the sweep is held in the first
 	"close":     {"close.unregistered"},
 	"rearm":     {"none"},
 }
@@ -368,7 +377,7 @@ var shutPoints = map[string][]string{
 func allShut() []shutInput {
 	var l []shutInput
 	for _, mem := range []bool{true, false} {
-		for _, racer := range []string{"write", "subdoc", "feedstart", "view", "timer", "close", "rearm"} {
+		for _, racer := range []string{"write", "subdoc", "feedstart", "view", "timer", "timer2", "close", "rearm"} {
 			for _, p := range shutPoints[racer] {
 				for _, sd := range []string{"cad", "close_last", "close_one", "drop"} {
 					if racer == "close" && sd == "close_one" {
